@@ -207,6 +207,10 @@ func genCase(rng *rand.Rand, i int) Case {
 	}
 	c.Source = []string{"seek", "seek", "noseek", "dribble", "dribble-seek"}[rng.Intn(5)]
 	c.Decl = []string{"none", "correct", "correct", "correct", "wrong-digest", "short", "long", "size-only", "digest-only"}[rng.Intn(9)]
+	if c.I%9 == 4 && c.Len > 2 {
+		// the stream is longer than what is declared: a size alone, or digest and size of a proper prefix
+		c.Decl = []string{"size-only-short", "prefix"}[(c.I/9)%2]
+	}
 	if c.Len == 0 && (c.Decl == "short" || c.Decl == "size-only") {
 		c.Decl = "correct"
 	}
@@ -332,8 +336,16 @@ func runCase(c Case) {
 		}
 	case "digest-only":
 		d.Digest = digest.Digest(actual)
+	case "size-only-short":
+		d.Size = int64(c.Len) - 1 - int64(rng.Intn(c.Len-2))
+		if c.Alg == "sha512" {
+			_ = d.DigestAlgoPrefer(digest.SHA512)
+		}
+	case "prefix":
+		k := c.Len - 1 - rng.Intn(c.Len-2)
+		d.Digest, d.Size = digest.Digest(la.Digest(c.Alg, content[:k])), int64(k)
 	}
-	mismatch := c.Decl == "wrong-digest" || c.Decl == "short" || c.Decl == "long"
+	mismatch := c.Decl == "wrong-digest" || c.Decl == "short" || c.Decl == "long" || c.Decl == "size-only-short" || c.Decl == "prefix"
 	if c.Decl == "short" && d.Size == 0 {
 		// size 0 means "unknown" to the client: not a declared mismatch
 		mismatch = false
@@ -562,6 +574,12 @@ func judge(c Case, decl, got descriptor.Descriptor, err error, actual string, co
 			if !la.Matches(string(decl.Digest), b) {
 				run.Violation("held-blob-replaced-by-other-bytes/"+dst, fmt.Sprintf("the blob the destination held under %s no longer matches that digest after an upload of other bytes was attempted", decl.Digest), wit())
 			}
+		} else if ok && c.Decl == "prefix" && la.Matches(string(decl.Digest), b) {
+			// the declared digest names a proper prefix of the stream and the destination now holds exactly that
+			// prefix under it (a single request framed by the declared length delivers it before anybody can know
+			// that more follows): the store is content-address-consistent, nothing foreign sits under the digest.
+			// What the statement still demands - and what is judged above - is that the caller is told.
+			run.Count("prefix_uploads_that_left_the_prefix_under_its_own_digest", 1)
 		} else if ok && !(string(decl.Digest) == actual && bytes.Equal(b, content) && c.Decl != "short" && c.Decl != "long") {
 			run.Violation(fmt.Sprintf("committed-under-declared/%s/%s", c.Decl, dst), fmt.Sprintf("declared descriptor does not match the stream (%s) but the destination now holds a blob under the declared digest %s", c.Decl, decl.Digest), wit())
 		}
@@ -579,7 +597,7 @@ func judge(c Case, decl, got descriptor.Descriptor, err error, actual string, co
 
 func main() {
 	run = ev.Start("C05", "exploration")
-	run.Rule("blob lengths on every boundary of chunk sizes {1,2,3,4,7,8,16,1024} x declared descriptor {absent, correct, wrong digest, short, long, size only, digest only} x sha256/sha512 x source {seekable, non-seekable, 1-byte dribble} " +
+	run.Rule("blob lengths on every boundary of chunk sizes {1,2,3,4,7,8,16,1024} x declared descriptor {absent, correct, wrong digest, short, long, size only, digest only, a size alone that is smaller than the stream, digest and size of a proper prefix of the stream} x sha256/sha512 x source {seekable, non-seekable, 1-byte dribble} " +
 		"x client chunk / max-put x server {chunk minimum, mount granted/declined/refused, anonymous mount, partial chunk acknowledgement at any offset in 202 or 4xx+Range style, early 201, relocated upload URLs (absolute, relative, with query, new path per response), monolithic PUT refused, one transient 5xx/429/408/reset at any request index} and OCI layout destinations; " +
 		"non-trivial = the upload succeeded (bytes compared) or a declared mismatch was presented; distinct = parameter classes")
 	run.Assume("the model destination is conforming: it refuses out-of-order chunks with 416 + Range and verifies the digest at commit",
